@@ -270,20 +270,26 @@ func runC07Startup(run *Run, seed int64, rng *rand.Rand) (out []*c01Result, cell
 			break
 		}
 		own := strings.HasPrefix(r.What, "[r @") || r.Key == "C07/startup/self-not-listed"
-		aboutSelf := false
+		aboutSelf, neverAlive := false, false
 		switch r.Key {
 		case "C07/automaton/join-while-present":
 			aboutSelf = strings.Contains(r.What, "join for r while already present")
 		case "C07/replay/gone-without-leave":
 			aboutSelf = strings.Contains(r.What, "event replay lists r but Members() does not")
 		case "C02/invariant/self-not-alive", "C02/invariant/self-not-listed", "C07/startup/self-not-listed":
-			aboutSelf = moved // (a node that comes back on its old address does become alive)
+			aboutSelf = true
+			neverAlive = true
 		}
 		if own && aboutSelf {
 			r.What = "[" + r.Key + "] " + r.What + fmt.Sprintf(" [waiting traffic %s, address changed %v, address look-up took %v]", kind, moved, delay)
-			if moved {
+			switch {
+			case moved:
 				r.Key = "C07/own-claim-before-announce/moved/never-alive"
-			} else {
+			case neverAlive:
+				// same address: the claim was processed after setAlive had drawn its incarnation and before it
+				// applied its announcement, which then is older than the refutation made on the claim's behalf
+				r.Key = "C07/own-claim-before-announce/overtaken/never-alive"
+			default:
 				r.Key = "C07/own-claim-before-announce/joined-twice"
 			}
 		}
